@@ -65,7 +65,12 @@ class C12(TalCheck):
         return {"tmpl": tmpl, "plan_seed": ch.choose(1 << 30),
                 "pretty": pretty, "crlf": pretty and ch.coin(0.2),
                 "seps": pretty and ch.coin(0.25), "data": ch.coin(0.15),
-                "bom": "files" not in tmpl and ch.coin(0.1)}
+                "bom": "files" not in tmpl and ch.coin(0.1),
+                # (now and then: a failure under that many macro calls)
+                **({"deep": ch.pick([1, 3, 23, 24, 25, 40, 70]),
+                    "deep_cls": ch.pick(["ValueError", "KeyError",
+                                         "RuntimeError"])}
+                   if ch.coin(0.08) else {})}
 
     def make_plans(self, case, tmpl, template) -> list:
         if "plans" in case:
@@ -127,8 +132,61 @@ class C12(TalCheck):
             v = self.nested_render(case, tmpl, template, log, res)
             if v is not None:
                 res["violations"].append(v)
+            elif case.get("deep"):
+                v = self.deep_chain(case, log, res)
+                if v is not None:
+                    res["violations"].append(v)
             res["digest"] = log.digest()
         return res
+
+    # -- a failure under many macro calls (a tree, a menu) ------------------------
+    DEEP = ('<div metal:define-macro="rec" class="level">\n'
+            '  <tal:block tal:condition="n > 0">\n'
+            '    <div tal:define="n n - 1" '
+            'metal:use-macro="template.macros[\'rec\']"/>\n'
+            '  </tal:block>\n'
+            '  <b tal:condition="n == 0">${boom(n)}</b>\n</div>')
+
+    def deep_chain(self, case, log, res):
+        """The records of a failure that comes up through ``depth`` calls of
+        a macro that uses itself: the failing expression first, then every
+        call site - however many there are."""
+        from ..env import ZOO
+        t = self.zt.PageTemplate(self.DEEP)
+        lines = self.DEEP.split("\n")
+        first = ("boom(n)", "<string>", 5, lines[4].index("boom(n)"))
+        call = ("template.macros['rec']", "<string>", 3,
+                lines[2].index("template.macros"))
+        depth = case["deep"]
+        make = ZOO[case.get("deep_cls", "ValueError")]
+        cls = type(make())
+
+        def boom(n):
+            raise make()
+        try:
+            t.render(n=depth, boom=boom)
+            got, e = None, None
+        except Exception as e_:         # noqa: BLE001
+            e = e_
+            try:
+                got = parse_records(str(e))
+            except Exception as e2:     # noqa: BLE001
+                got = "str() raised %s" % type(e2).__name__
+        want = [first] + [call] * depth
+        res["stats"]["plans"] += 1
+        log.add("deep", depth, got == want)
+        if got != want or not isinstance(e, cls):
+            return {"kind": "deep-chain", "sig": "deep-chain",
+                    "detail": f"a {cls.__name__} under {depth} calls of a "
+                              f"macro that uses itself came out as "
+                              f"{type(e).__name__} with "
+                              f"{len(got) if isinstance(got, list) else got}"
+                              f" records, the first ones "
+                              f"{str(got[:3] if isinstance(got, list) else got)[:300]}; "
+                              f"expected {want[:2]} and {depth - 1} more "
+                              f"call sites",
+                    "plan_index": 0, "plan": [], "handler": None}
+        return None
 
     def nested_render(self, case, tmpl, template, log, res):
         """A template whose expression calls a helper that renders *this*
